@@ -101,7 +101,10 @@ class EnfoldStream(Stream):
     def corpus(self):
         return [{'backend': 'sqlite', 'init': [['sb', 1], ['sa', 2]], 'populate': 1,
                  'ops': [[['get', 'sa'], False], [['delete', 'sa'], True], [['delete', 'sa'], False],
-                         [['add', 'sa', 3, False], False], [['retrieve_all', 1], False], [['get', 'sz'], False]]}]
+                         [['add', 'sa', 3, False], False], [['retrieve_all', 1], False], [['get', 'sz'], False]]},
+                # a backend larger than any paging window a storage might cap (populate asks for pages of 1000)
+                {'backend': 'memory', 'init': [['s%04d' % i, i + 1] for i in range(1040)], 'populate': 'ctor',
+                 'ops': [[['get', 's0700'], False], [['get', 's1039'], False], [['delete', 's0600'], False]]}]
 
     def generate(self, rng, tier):
         n = 260 if tier == 'quick' else 2500
@@ -192,7 +195,7 @@ ASSUME = ['paged listing (get_all) through the cache follows the cache order, wh
 
 def main(argv):
     return run_check('C12', [EnfoldStream()], argv, trusted_base=TRUSTED, assumptions=ASSUME,
-                     translated=('enfold', 'memory', 'storage_abc'))
+                     translated=('enfold', 'memory', 'storage_abc', 'sql', 'redis', 'mongo', 'pin_util'))
 
 
 if __name__ == '__main__':
